@@ -160,12 +160,28 @@ class Canon:
         self.atom_ids = {}  # canonical key -> atom id
         self.atom_terms = []  # atom id -> z3 term
         self.rules = {}  # atom id -> Poly for atom^2
+        self.uf_index = {}
+        self.defs = {}  # atom id -> Poly (atom == polynomial in other atoms), from SIN/COS definitional equalities
 
     def atom(self, key, term):
         if key not in self.atom_ids:
             self.atom_ids[key] = len(self.atom_terms)
             self.atom_terms.append(term)
         return self.atom_ids[key]
+
+    def _uf_atom(self, name, args, e):
+        """Atom of a UF application; applications whose arguments are equal as rational functions
+        (cross-multiplied difference reduces to the zero polynomial) share the atom (congruence)."""
+        key = ("uf", name, tuple(a.key() for a in args))
+        if key in self.atom_ids:
+            return self.atom_ids[key]
+        for (nm, ars), aid in self.uf_index.get((name, len(args)), []):
+            if all(self.reduce(x.n * y.d - y.n * x.d).is_zero() for x, y in zip(args, ars)):
+                self.atom_ids[key] = aid
+                return aid
+        aid = self.atom(key, e)
+        self.uf_index.setdefault((name, len(args)), []).append(((name, args), aid))
+        return aid
 
     def rf(self, e):
         i = e.get_id()
@@ -230,13 +246,13 @@ class Canon:
             if not ch:
                 at = self.atom(("var", d.name()), e)
                 return RF(Poly.var(at))
-            args = [self.rf(c) for c in ch]
+            args = [self.reduce_rf(self.rf(c)).simplify_const_den() for c in ch]
             name = d.name()
             if name == "TANH":
                 # tanh = sinh / cosh, cosh^2 = 1 + sinh^2: hyperbolic identities become polynomial identities
                 from .core import uf
                 return self.rf(uf("SINH")(ch[0])) / self.rf(uf("COSH")(ch[0]))
-            at = self.atom(("uf", d.name(), tuple(a.key() for a in args)), e)
+            at = self._uf_atom(name, args, e)
             if name == "COSH" and at not in self.rules:
                 from .core import uf
                 sh = self.rf(uf("SINH")(ch[0]))
@@ -277,6 +293,12 @@ class Canon:
     def learn_rules(self, side):
         """Pick up square relations from side conditions: x*x == rhs (sqrt definitions,
         rotation c*c + s*s == 1)."""
+        for rnd in range(2):
+            self._learn_pass(side)
+            # terms normalised before all rules were known must be re-normalised
+            self.memo.clear()
+
+    def _learn_pass(self, side):
         for c in side:
             for eq in _conjuncts(c):
                 if not (z3.is_app(eq) and eq.decl().kind() == z3.Z3_OP_EQ):
@@ -290,7 +312,27 @@ class Canon:
                     continue
                 self._rule_from(L, R)
 
+    def _def_from(self, L, R):
+        for X, Y in ((L, R), (R, L)):
+            a = _single_atom(X)
+            if a is None or a in self.defs:
+                continue
+            t = self.atom_terms[a]
+            if not (z3.is_app(t) and t.decl().kind() == z3.Z3_OP_UNINTERPRETED and t.decl().name() in ("SIN", "COS")):
+                continue
+            Y = Y.simplify_const_den()
+            if not Y.d.is_const() or a in Y.n.atoms():
+                continue
+            # avoid cyclic definitions
+            if any(b in self.defs and a in self.defs[b].atoms() for b in Y.n.atoms()):
+                continue
+            self.defs[a] = Y.n
+            return True
+        return False
+
     def _rule_from(self, L, R):
+        if self._def_from(L, R):
+            return
         # a^2 == R (R polynomial) with a an atom that has no rule yet
         for X, Y in ((L, R), (R, L)):
             X = X.simplify_const_den()
@@ -317,7 +359,32 @@ class Canon:
                     rest = Poly({k: v for k, v in D.n.t.items() if k != m1})
                     self.rules[a] = rest.scale(-1 / v1)
 
+    def _apply_defs(self, p):
+        guard = 0
+        while guard < 20:
+            guard += 1
+            hit = False
+            acc = Poly()
+            for mono, coef in p.t.items():
+                da = next((a for a, e in mono if a in self.defs), None)
+                if da is None:
+                    acc = acc + Poly({mono: coef})
+                    continue
+                hit = True
+                e = dict(mono)[da]
+                rest = tuple((b, f) for b, f in mono if b != da)
+                rep = Poly({rest: coef})
+                for _ in range(e):
+                    rep = rep * self.defs[da]
+                acc = acc + rep
+            p = acc
+            if not hit:
+                break
+        return p
+
     def reduce(self, p):
+        if self.defs and p.t:
+            p = self._apply_defs(p)
         if not self.rules or not p.t:
             return p
         changed = True
@@ -361,7 +428,7 @@ class Canon:
         return p
 
     def reduce_rf(self, r):
-        if not self.rules:
+        if not self.rules and not self.defs:
             return r
         return RF(self.reduce(r.n), self.reduce(r.d))
 
